@@ -12,7 +12,11 @@ VERIF = '/verif'
 env = dict(os.environ, GOFLAGS='-mod=mod', GOPROXY='off', GOSUMDB='off', GOTOOLCHAIN='local')
 wt = '/tmp/verif-confirm-%s' % name
 subprocess.run(['git', '-C', '/repo', 'worktree', 'remove', '--force', wt], capture_output=True)
-subprocess.run(['git', '-C', '/repo', 'worktree', 'add', '--detach', '-f', wt, 'HEAD'], check=True, capture_output=True)
+base = 'HEAD'
+def fresh():
+    subprocess.run(['git', '-C', '/repo', 'worktree', 'remove', '--force', wt], capture_output=True)
+    subprocess.run(['git', '-C', '/repo', 'worktree', 'add', '--detach', '-f', wt, base], check=True, capture_output=True)
+fresh()
 def suite():
     ok = True; log = []
     for mod in ('kernel', 'kbuild'):
@@ -36,7 +40,13 @@ result = {}
 try:
     r = subprocess.run(['git', '-C', wt, 'apply', os.path.join(out, 'patch.diff')], capture_output=True, text=True)
     if r.returncode != 0:
-        print('patch does not apply:', r.stderr); sys.exit(1)
+        # written against an older commit (a repository fix has touched the same lines since): keep it there
+        base = subprocess.run(['git', '-C', wt_agent, 'rev-parse', 'HEAD'], capture_output=True, text=True).stdout.strip()
+        fresh()
+        r = subprocess.run(['git', '-C', wt, 'apply', os.path.join(out, 'patch.diff')], capture_output=True, text=True)
+        if r.returncode != 0:
+            print('patch does not apply:', r.stderr); sys.exit(1)
+        result['base'] = base
     ok, log = suite()
     result['suite_passes_with_change'] = ok
     if not ok: print('\n'.join(log[:20]))
@@ -69,6 +79,7 @@ try:
                 'files_changed': am.get('files_changed', []),
                 'origin': 'fresh sub-agent given only the property text and a scratch worktree, asked for a change that PRESERVES the property',
                 'confirmed_by_main_session': result}
+        if result.get('base'): meta['base'] = result['base']
         json.dump(meta, open(os.path.join(dst, 'meta.json'), 'w'), indent=1)
         print('stored', dst)
     else:
